@@ -312,11 +312,18 @@ var c06ExSpecs = []struct {
 	{"https://sub.b.test/y", func() http.Header { return http.Header{"x-lower": {"v"}, "Content-Type": {"image/png"}} }},
 	{"https://c.test/", func() http.Header { return http.Header{} }},
 	{"https://z.test/", func() http.Header { return http.Header{"Content-Type": {"text/html"}} }},
+	// covered and uncovered hosts with an explicit port
+	{"https://a.test:8443/app.js", func() http.Header { return http.Header{"Content-Type": {"text/javascript"}} }},
+	{"https://z.test:8443/app.js", func() http.Header { return http.Header{"Content-Type": {"text/javascript"}} }},
 }
 
 func c06HostOf(u string) string {
 	s := strings.TrimPrefix(u, "https://")
-	return s[:strings.Index(s, "/")]
+	s = s[:strings.Index(s, "/")]
+	if i := strings.IndexByte(s, ':'); i >= 0 {
+		s = s[:i] // a certificate covers host names; the port is not part of one
+	}
+	return s
 }
 
 func c06CopyHdr(h map[string][]string) map[string][]string {
@@ -1596,7 +1603,7 @@ func init() {
 	register(&mc.Property{
 		ID:    "C06",
 		Level: "model_checking",
-		Rule:  "record-sizes: one signer (A, B quick; all four thorough) x b1/b2 x record size {2,3,255,256,16351,16352,16353,16383,16384} x all 10 layouts of status {200,404} x body length {0,1,rs,rs+1,2rs+1} over 7 exchanges (also without the exchanges of c.test / of b.test, so that a signer for those hosts vouches for an empty set), written and re-read after signing (thorough: also not), verified at the five boundary times of the window; histories: every sequence of 1..2 (quick) / 1..3 (thorough) signers from {A (2-cert chain), B (P-384), A2 (2-cert chain), C} x record sizes {1,16,4096} x write/read before the first signer and after each signer x b1/b2 x 8/10 layouts rotating status {200,404} x payload length {0,1,rs,rs+1[,2rs+1]} over 7 exchanges x 2/3 dates incl. 2^32, with at most one deviating signer (window 7d+1s / 1h / shifted, lying auth-sha256, foreign integrity id), verified at the five boundary times of every window; bitflips: every single bit of the signatures and responses sections of 2 (quick) / 28 (thorough) signed bundles; edits: every listed in-memory edit (quick) / every pair of edits at different sites (thorough) on every covered exchange of 4 / 16 signed bundles, with and without write/read before and after.  A history is non-trivial when it has two completed signers, a refused signer or a deviation; a bit flip when it lands in certificate, authority, sig, signed, header-map or payload bytes; an edit when at least one deviation was taken.",
+		Rule:  "record-sizes: one signer (A, B quick; all four thorough) x b1/b2 x record size {2,3,255,256,16351,16352,16353,16383,16384} x all 10 layouts of status {200,404} x body length {0,1,rs,rs+1,2rs+1} over 9 exchanges (also without the exchanges of c.test / of b.test, so that a signer for those hosts vouches for an empty set), written and re-read after signing (thorough: also not), verified at the five boundary times of the window; histories: every sequence of 1..2 (quick) / 1..3 (thorough) signers from {A (2-cert chain), B (P-384), A2 (2-cert chain), C} x record sizes {1,16,4096} x write/read before the first signer and after each signer x b1/b2 x 8/10 layouts rotating status {200,404} x payload length {0,1,rs,rs+1[,2rs+1]} over 9 exchanges x 2/3 dates incl. 2^32, with at most one deviating signer (window 7d+1s / 1h / shifted, lying auth-sha256, foreign integrity id), verified at the five boundary times of every window; bitflips: every single bit of the signatures and responses sections of 2 (quick) / 28 (thorough) signed bundles; edits: every listed in-memory edit (quick) / every pair of edits at different sites (thorough) on every covered exchange of 4 / 16 signed bundles, with and without write/read before and after.  A history is non-trivial when it has two completed signers, a refused signer or a deviation; a bit flip when it lands in certificate, authority, sig, signed, header-map or payload bytes; an edit when at least one deviation was taken.",
 		Assumptions: []string{
 			"refsig/refcbor (independent signed-subset, header-map, MI and signatures-section serializers written from extensions/signatures-section.md and draft-thomson-http-mice-03) are correct; crypto/ecdsa, crypto/sha256, crypto/x509 are trusted",
 			"ECDSA itself is not explored ((r, n-s) malleability, nonce quality); bitflips/edits use a constant entropy source so that artifacts are reproducible, histories use crypto/rand",
